@@ -325,6 +325,13 @@ def oracle_c05(rows):
                     (k == "cancel" and s["op"].get("via_owner")):   # every operation that refreshes first
                 for v in reserved.values():
                     v["refreshed"] = True
+            if k == "cancel" and s["op"].get("names_nothing"):
+                if s["rc"] == [0]:
+                    ch = [(t["parent"], t["id"]) for t in snap["txs"]
+                          if prev is not None and {(x["parent"], x["id"]): x["type"] for x in prev["txs"]}.get((t["parent"], t["id"])) != t["type"]]
+                    fails.append(_fail(r, idx, "a cancel that names no transaction (neither log id nor slate id) succeeded and cancelled %s" % ch))
+                prev = snap
+                continue
             if prev is not None and k == "cancel" and s["op"].get("via_owner"):
                 # owner::cancel_tx updates the wallet state first (refresh, kernels, scan, expiry), so
                 # the snapshot diff is not the cancel's alone: the frame is the model's business here
@@ -450,9 +457,12 @@ def oracle_c07(rows):
                         fails.append(_fail(r, idx, "receive did not add exactly one log entry"))
                     if ex.get("reply_participants") != 1:
                         fails.append(_fail(r, idx, "reply carries %s participant entries" % ex.get("reply_participants")))
-                if k == "receive" and s["rc"] != [0] and s["op"].get("crypto_ok", True):
+                if k == "receive" and s["rc"] != [0]:
                     if canon(proj_from_snap(prev))[:4] != canon(proj_from_snap(snap))[:4]:
-                        fails.append(_fail(r, idx, "refused receive changed the wallet"))
+                        fails.append(_fail(r, idx, "refused receive changed the wallet" +
+                                           ("" if s["op"].get("crypto_ok", True) else
+                                            " (refused for its signature data after the output and the entry were written)"
+                                            " [refused-receive-leaves-record]")))
             prev = snap
     return fails
 
@@ -641,7 +651,7 @@ def oracle_c04(rows, equation=True):
                                            % (parent, (t["parent"], t["id"]),
                                               (p0["slate"], p0["credited"], p0["debited"]), (t["slate"], t["credited"], t["debited"]))))
             # a refresh that could not query the UTXO set knows nothing about the chain: the books stay
-            if s["op"].get("outage") and idx > 0:
+            if s["op"].get("outage") and idx > 0 and not s["op"].get("names_nothing"):
                 pv = r["steps"][idx - 1]["snap"]
                 po = {(o["acct"], o["child"], o["mmr"]): (o["status"], o["value"], o["height"]) for o in pv["outputs"]}
                 no = {(o["acct"], o["child"], o["mmr"]): (o["status"], o["value"], o["height"]) for o in snap["outputs"]}
